@@ -746,7 +746,10 @@ var JSONAlphabet = []string{"a", `"`, "\\", "/", "\x00", "\x01", "\b", "\t", "\n
 
 // XMLAlphabet is the markup alphabet of C18 (DESIGN.md §5 C18), legal XML characters only.
 var XMLAlphabet = []string{"a", "<", ">", "&", "'", `"`, "]]>", "<!--", "-->", "<![CDATA[", "&amp;", "&#65;", "=", " ", "a b",
-	"\t", "\n", "\r", "\u00e9", "xmlns", "1a", "/", "-", "\U00010000", "?>", "<a/>"}
+	"\t", "\n", "\r", "\u00e9", "xmlns", "1a", "/", "-", "\U00010000", "?>", "<a/>",
+	// Latin-1 characters around the XML name classes: µ is a Unicode letter but no XML name character,
+	// · is a name character that may not start a name, × sits between the two letter ranges
+	"\u00b5", "\u00b7", "\u00d7"}
 
 // Strings returns every string of at most max symbols over the alphabet, shortest first.
 func Strings(alpha []string, max int) []string {
